@@ -38,6 +38,9 @@ def base_tree(rng):
          'd/sub': {'k': 'dir'}}
     for k in rng.sample(['f', 'd/x', 'e', 'lf', 'ld', 'lx', 'd/sub'], rng.randrange(0, 3)):
         t.pop(k, None)
+    if 'e' in t and rng.random() < 0.5:
+        # names that file managers and tools drop into folders: ordinary entries to a sync
+        t['e/' + rng.choice(['.DS_Store', 'Thumbs.db', 'desktop.ini', '.gitkeep', '.directory', '.nfs0001', 'lost+found'])] = {'k': 'file', 'data': b'litter', 'mtime_ns': T0 + 3}
     return t
 
 
@@ -159,6 +162,21 @@ def effect_missing(binary, base, tree, prefix):
             return None                      # below a link: not judged here
         if f[0] == 'Mk' and not (os.path.isdir(full) and not os.path.islink(full)):
             return 'CreateFolder %r was answered with success but there is no folder there (%s)' % (rel, 'a symlink' if os.path.islink(full) else 'a file' if os.path.exists(full) else 'nothing')
+        if f[0] == 'RmD' and not os.path.lexists(full):
+            # the folder is gone: was it empty when the command arrived?  (a DeleteFolder must never take contents with it - that is what
+            # keeps entries the filters exclude, which the boss does not know about, where they are)
+            d2 = tempfile.mkdtemp(prefix='eff2_', dir=base)
+            try:
+                root2 = os.path.join(d2, 'root')
+                os.makedirs(os.path.join(d2, 'outside'))
+                e2e.build_tree(root2, tree)
+                if len(prefix) > 1:
+                    vlib.harness(binary, 'doerops', ['%s %s' % (root2.encode().hex(), ' '.join(prefix[:-1]))], timeout=120)
+                full2 = os.path.join(root2, rel) if rel else root2
+                if os.path.isdir(full2) and not os.path.islink(full2) and os.listdir(full2):
+                    return 'DeleteFolder %r removed a folder that still held %s' % (rel, sorted(os.listdir(full2))[:3])
+            finally:
+                shutil.rmtree(d2, ignore_errors=True)
         if f[0] in ('RmF', 'RmD', 'RmL') and os.path.lexists(full):
             return '%s %r was answered with success but the entry is still there' % ({'RmF': 'DeleteFile', 'RmD': 'DeleteFolder', 'RmL': 'DeleteSymlink'}[f[0]], rel)
         if f[0] == 'Lnk' and not os.path.islink(full):
